@@ -128,26 +128,40 @@ func genSeq(r *rand.Rand, maxLen int, k1 bool) desc {
 		keys = []string{hlib.Pick(r, ordinary), hlib.Pick(r, ordinary), hlib.Pick(r, sp)}
 	}
 	n := 1 + r.Intn(maxLen)
+	cur := d.NoNorm // the normalisation setting at this point of the sequence (true = off)
 	for i := 0; i < n; i++ {
 		name := hlib.Pick(r, keys)
 		which := r.Intn(4)
-		if d.NoNorm && !k1 {
+		if cur && !k1 {
 			// keep special names canonical, vary ordinary ones
 			if !isOrdinaryName(name) {
 				which = 0
 			}
 		}
 		k := caseVariant(r, name, which)
-		o := opd{K: []byte(k), Via: r.Intn(4), All: r.Intn(3) == 0}
+		o := opd{K: []byte(k), Via: r.Intn(6), All: r.Intn(3) == 0}
 		switch x := r.Intn(100); {
 		case x < 35:
 			o.Op, o.V = "set", pickValue(r, name)
 		case x < 70:
 			o.Op, o.V = "add", pickValue(r, name)
-		case x < 93:
+		case x < 91:
 			o.Op = "del"
-		default:
+		case x < 96:
 			o = opd{Op: "copy", All: o.All}
+		case x < 98:
+			o = opd{Op: "reset", All: o.All}
+		default:
+			o = opd{Op: "norm", All: o.All}
+			if r.Intn(2) == 0 {
+				o.V = []byte("1")
+			}
+		}
+		switch o.Op {
+		case "reset":
+			cur = false
+		case "norm":
+			cur = len(o.V) > 0
 		}
 		d.Ops = append(d.Ops, o)
 	}
@@ -242,6 +256,27 @@ func corpus() []desc {
 			// trailer interplay: names listed in Trailer are left out of the serialised header
 			c = append(c, seq(resp, nonorm, false, false, add("Foo", "1"), add("X-Bar", "2"), set("Trailer", "Foo"), add("Foo", "3"), set("Trailer", "X-Bar, Accept")))
 		}
+		// typed setters against the generic API on the same name; SetCanonical; Reset and reuse; normalisation toggled
+		// in the middle of a sequence
+		typed := func(k, v string) opd { return opd{Op: "set", K: bs(k), V: bs(v), Via: 4, All: true} }
+		canonical := func(k, v string) opd { return opd{Op: "set", K: bs(k), V: bs(v), Via: 5, All: true} }
+		reset := opd{Op: "reset", All: true}
+		normOff, normOn := opd{Op: "norm", V: bs("1"), All: true}, opd{Op: "norm", All: true}
+		sp0, _ := names(resp)
+		for _, nonorm := range []bool{false, true} {
+			var ops []opd
+			for _, n := range sp0 {
+				vs := valuesFor[n]
+				ops = append(ops, set(n, vs[0]), typed(n, vs[1]), add(n, vs[0]), typed(n, vs[1]), del(n), typed(n, vs[0]))
+			}
+			c = append(c, seq(resp, nonorm, false, false, ops...))
+			c = append(c, seq(resp, nonorm, true, false, canonical("foo", "1"), canonical("X-Bar", "2"), canonical("Content-Type", "a/b"), canonical("foo", "3"),
+				add("Foo", "4"), del("foo"), canonical("Connection", "Close"), canonical("Connection", "x")))
+			c = append(c, seq(resp, nonorm, true, false, add("Foo", "1"), set("Content-Type", "a/b"), set("Connection", "close"), add("Cookie", "a=1"), add("Set-Cookie", "b=2"),
+				set("Trailer", "Foo"), reset, add("Foo", "2"), set("content-length", "5"), reset, reset, set("Host", "h")))
+			c = append(c, seq(resp, nonorm, false, false, add("foo", "1"), add("Foo", "2"), normOff, add("foo", "3"), set("FOO", "4"), del("Foo"), normOn,
+				add("foo", "5"), del("foo"), normOff, set("Content-Type", "a/b"), normOn, set("content-type", "c/d")))
+		}
 		// normalisation off: a special name in another letter case (known finding nonorm-special-casefold)
 		sp, _ := names(resp)
 		for _, n := range sp {
@@ -272,6 +307,14 @@ type hdr interface {
 	AddBytesK(key []byte, value string)
 	AddBytesV(key string, value []byte)
 	AddBytesKV(key, value []byte)
+	SetCanonical(key, value []byte)
+	SetContentType(contentType string)
+	SetContentTypeBytes(contentType []byte)
+	SetContentLength(contentLength int)
+	SetTrailer(trailer string) error
+	PeekCanonical(key []byte) []byte
+	Reset()
+	EnableNormalizing() bool
 	Del(key string)
 	DelBytes(key []byte)
 	Peek(key string) []byte
@@ -315,14 +358,17 @@ func kvList(h hdr) (string, []string) {
 	return hlib.List(items), keys
 }
 
-func observe(h hdr, d desc, o opd, step int) string {
+func observe(h hdr, d desc, o opd, step int, nonorm bool) string {
 	var probes []string
 	for j, k := range d.Probes {
 		var pk []byte
-		if (step+j)%2 == 0 {
+		switch (step + j) % 3 {
+		case 0:
 			pk = clone(h.Peek(string(k)))
-		} else {
+		case 1:
 			pk = clone(h.PeekBytes(clone(k)))
+		default: // PeekCanonical takes the key as stored: canonicalise it here the way Peek would
+			pk = clone(h.PeekCanonical(canonKey(k, nonorm)))
 		}
 		var all []string
 		for _, v := range h.PeekAll(string(k)) {
@@ -351,10 +397,94 @@ func observe(h hdr, d desc, o opd, step int) string {
 	return hlib.App("HObs", hlib.List(probes), hlib.List(get), cl, cc, all)
 }
 
-func apply(h hdr, d desc, o opd) (hdr, string) {
+// canonKey: the key as Set/Peek would store/look it up under the given normalisation setting
+func canonKey(k []byte, nonorm bool) []byte {
+	if nonorm {
+		return clone(k)
+	}
+	return fasthttp.AppendNormalizedHeaderKeyBytes(nil, k)
+}
+
+// typedSet calls the typed setter that is documented to equal Set(name, v) and reports whether there is one
+func typedSet(h hdr, name string, v []byte) bool {
+	switch name {
+	case "Content-Type":
+		if len(v)%2 == 0 {
+			h.SetContentType(string(v))
+		} else {
+			h.SetContentTypeBytes(clone(v))
+		}
+		return true
+	case "Content-Length":
+		n, err := strconv.Atoi(string(v))
+		if err != nil || n < 0 || strconv.Itoa(n) != string(v) {
+			return false
+		}
+		h.SetContentLength(n)
+		return true
+	case "Trailer":
+		if bytes.ContainsAny(v, "\r\n") {
+			return false
+		}
+		_ = h.SetTrailer(string(v))
+		return true
+	}
+	switch t := h.(type) {
+	case *fasthttp.ResponseHeader:
+		switch name {
+		case "Server":
+			t.SetServer(string(v))
+			return true
+		case "Content-Encoding":
+			t.SetContentEncodingBytes(clone(v))
+			return true
+		}
+	case *fasthttp.RequestHeader:
+		switch name {
+		case "Host":
+			t.SetHostBytes(clone(v))
+			return true
+		case "User-Agent":
+			t.SetUserAgent(string(v))
+			return true
+		}
+	}
+	return false
+}
+
+func apply(h hdr, d desc, o opd, nonorm bool) (hdr, string) {
+	hh, term := apply0(h, d, o, nonorm)
+	if o.Op == "reset" || o.Op == "norm" {
+		return hh, term
+	}
+	return hh, hlib.App("XOp", term)
+}
+
+func apply0(h hdr, d desc, o opd, nonorm bool) (hdr, string) {
 	k, v := []byte(o.K), []byte(o.V)
 	switch o.Op {
+	case "reset":
+		h.Reset()
+		return h, "XReset"
+	case "norm":
+		if len(v) > 0 {
+			h.DisableNormalizing()
+			return h, "(XNorm true)"
+		}
+		h.EnableNormalizing()
+		return h, "(XNorm false)"
 	case "set":
+		if o.Via == 4 {
+			// the typed setter of a special name, recorded as the Set on the canonical name it is documented to equal
+			name := string(fasthttp.AppendNormalizedHeaderKeyBytes(nil, k))
+			if typedSet(h, name, v) {
+				return h, hlib.App("HSet", hlib.HexS(name), hlib.Hex(v))
+			}
+		}
+		if o.Via >= 4 {
+			h.SetCanonical(canonKey(k, nonorm), clone(v))
+			return h, hlib.App("HSet", hlib.Hex(k), hlib.Hex(v))
+		}
 		switch o.Via {
 		case 0:
 			h.Set(string(k), string(v))
@@ -421,11 +551,18 @@ func run(d desc) hlib.Case {
 	h := fresh(d)
 	var steps []string
 	k1 := false
+	nonorm, nodef := d.NoNorm, d.NoDefCT
 	for i, o := range d.Ops {
 		var term string
-		h, term = apply(h, d, o)
-		steps = append(steps, hlib.Tuple(term, observe(h, d, o, i)))
-		if o.Op != "copy" && o.Op != "del" && d.NoNorm && isCaseVariantOfSpecial(d.Resp, string(o.K)) {
+		h, term = apply(h, d, o, nonorm)
+		switch o.Op {
+		case "reset":
+			nonorm, nodef = false, false
+		case "norm":
+			nonorm = len(o.V) > 0
+		}
+		steps = append(steps, hlib.Tuple(term, observe(h, d, o, i, nonorm)))
+		if (o.Op == "set" || o.Op == "add") && nonorm && isCaseVariantOfSpecial(d.Resp, string(o.K)) && !(o.Op == "set" && o.Via == 4) {
 			k1 = true
 		}
 	}
@@ -435,7 +572,7 @@ func run(d desc) hlib.Case {
 	}
 	finalAll, keys := kvList(h)
 	wire := clone(h.Header())
-	h2 := fresh(d)
+	h2 := fresh(desc{Resp: d.Resp, NoNorm: nonorm, NoDefCT: nodef})
 	var err error
 	switch t := h2.(type) {
 	case *fasthttp.ResponseHeader:
@@ -444,13 +581,25 @@ func run(d desc) hlib.Case {
 		err = t.Read(bufio.NewReader(bytes.NewReader(wire)))
 	}
 	reread := hlib.None()
+	delKey := "X-Verif-None"
+	reread2 := "[]"
 	if err == nil {
-		l, _ := kvList(h2)
+		l, ks := kvList(h2)
 		reread = hlib.Some(l)
+		// reuse after Read: mutate the parsed header
+		for _, k := range ks {
+			if strings.EqualFold(k, "Foo") || strings.EqualFold(k, "X-Bar") || strings.EqualFold(k, "Accept") {
+				delKey = k
+				break
+			}
+		}
+		h2.Set("X-Verif-New", "1")
+		h2.Del(delKey)
+		reread2, _ = kvList(h2)
 	}
 	c := hlib.Case{Kind: "seq", Size: len(d.Ops)}
 	c.Coq = hlib.App("CHdr", hlib.Bool(d.Resp), hlib.Bool(d.NoNorm), hlib.Bool(d.NoDefCT),
-		hlib.HexList(toBytes(d.Probes)), hlib.List(steps), finalAll, reread)
+		hlib.HexList(toBytes(d.Probes)), hlib.List(steps), finalAll, reread, hlib.HexS(delKey), reread2)
 	if k1 {
 		c.Key = "nonorm-special-casefold"
 	}
